@@ -175,7 +175,7 @@ Proof.
     unfold with_refresh, new_grant.
     repeat (cbn; auto; break_inner).
     all: cbn; auto.
-    all: intros [<-|H]; [right; cbn; repeat split; auto; destruct (should_issue_refresh _ _ _); cbn; auto|left; apply filter_In in H; tauto].
+    all: intros [<-|H]; [right; cbn; repeat split; auto; destruct (should_issue_refresh _ _ _ _); cbn; auto|left; apply filter_In in H; tauto].
   - destruct (find _ (st_gsess st)); cbn; auto. intros H. left. apply filter_In in H. tauto.
 Qed.
 
